@@ -5,18 +5,25 @@ CFG = {
     "check_vo": "theories/Check/C04.vo", "prop_vo": "theories/Properties/C04.vo",
     "prop_file": "theories/Properties/C04.v",
     "theory_files": ["theories/Base/Bytes.v", "theories/Base/BytesMore.v", "theories/Base/BytesProofs.v",
-                     "theories/Formats/PlyRead.v", "theories/Formats/PlyWrite.v", "theories/Formats/PlyWriteProofs.v"],
+                     "theories/Formats/PlyRead.v", "theories/Formats/PlyWrite.v", "theories/Formats/PlyWriteProofs.v",
+                     "theories/Formats/PlyWritePlaced.v"],
     "level_text": "Coq theorems about an executable model of polyform's PLY writer (property-writer table, header, "
                   "per-vertex records, face records with per-corner texture coordinates; ASCII token lines, little- and "
-                  "big-endian bytes) composed with the PLY reader model: for every well-formed point cloud / triangle mesh "
-                  "read_mesh (write o f m) = Ok (expected o m) is proved for ply.Write's table in all three encodings (whole "
-                  "file: header, vertex element, face element, reader construction, regrouping, unweld); both models are tied to the Go code on every run by evaluating them (vm_compute) on the "
-                  "files polyform wrote and the meshes ply.ReadMesh returned, plus a direct per-corner oracle",
+                  "big-endian bytes) composed with the PLY reader model: for EVERY well-formed point cloud / triangle mesh and "
+                  "ply.Write's table (unspecified properties on or off) the three files exist, decode to one mesh with the "
+                  "topology, indices and attributes of expected o m, and each header describes its body "
+                  "(ply_write_read_property_all; whole file: header, vertex element, face element, reader construction incl. the "
+                  "reader's own ordering for per-vertex s/t, regrouping, unweld); both models are tied to the Go code on every run "
+                  "by evaluating them (vm_compute) on the files polyform wrote and the meshes ply.ReadMesh returned, plus a direct "
+                  "per-corner oracle; sizes past internal block limits (4 KiB .. 64 KiB of vertex / face records, 2^16 vertices, "
+                  "indices beyond 2^16) and the whole finite float32 range are judged by fingerprints of synthetic meshes",
     "level_note": "Trusted: Coq kernel + vm_compute; hand-written models tied by differential correspondence only "
                   "(generator quality bounds it); strconv number printing/parsing and the float64->float32 conversion "
-                  "are Go-side; the whole-file theorems cover ply.Write's table (unspecified properties on/off) except point "
-                  "clouds with per-vertex s/t texture coordinates, proved through placed readers under a decidable side condition; "
-                  "custom writer tables are covered by a conditional theorem, the correspondence and the oracle",
+                  "are Go-side; the whole-file theorems cover ply.Write's table for every mesh accepted by wf_mesh (one explicit "
+                  "decidable exclusion: a point cloud with TexCoord whose user attributes are themselves named s or t - duplicate "
+                  "property names, refuted witness in Properties/C04.v); custom writer tables are covered by a conditional theorem, "
+                  "the correspondence and the oracle; large synthetic meshes are compared by two 63-bit polynomial fingerprints "
+                  "(the writer model is evaluated on them up to 400 vertices / faces, beyond that the oracle alone judges)",
     "technique": "Coq proof (induction over property lists, vertex records, face records; byte/token level round trip) "
                  "+ vm_compute correspondence check",
     "design_ref": "DESIGN.md §4 C04",
@@ -24,17 +31,27 @@ CFG = {
     "rule": "random point clouds and triangle meshes (0-12 vertices, 0-10 triangles; welded, unwelded, unreferenced "
             "vertices, degenerate and empty face lists) with any subset of Position/Normal/Color/TexCoord/FDC/Opacity/"
             "Scale/Rotation and 0-3 user-named attributes of dimension 1-4, float32-exact values (dyadic, integers, -0, "
-            "1e20, subnormal; colours on k/255 and (k+.5)/255), written with ply.Write, the default table without "
+            "magnitudes beyond int32/int64/uint64, largest/smallest normal and denormal float32; colours on k/255 and "
+            "(k+.5)/255), written with ply.Write, the default table without "
             "unspecified properties, and custom tables (one explicit writer per attribute x uchar/int/float/double storage x "
-            "recognised spellings or fresh names, values at the limits of each type; splat table) in ASCII, little- and big-endian; distinct by mesh+configuration; "
+            "recognised spellings or fresh names, values at the limits of each type; splat table) in ASCII, little- and big-endian, "
+            "with or without a (textured) material; read back through bytes.Reader or short-read readers (one byte, half, "
+            "data+EOF, random chunks); results rendered only after all reads and one unrelated read; plus a systematic family of "
+            "large synthetic meshes (vertex / face records crossing 4/8/32/64 KiB, 65535-65793 vertices, indices beyond 2^16, "
+            "corner count = vertex count) with values over every float32 exponent; distinct by mesh+configuration; "
             "non-trivial = at least one vertex and one attribute",
     "trusted": ["strconv number printing/parsing (ASCII) is outside the model: the harness tokenises the written text "
                 "independently and converts number tokens with strconv",
                 "float64->float32 rounding is performed by Go (math.Float32bits) and passed to the model as words; "
-                "inputs are float32-exact so the comparison is exact"],
+                "inputs are float32-exact so the comparison is exact",
+                "large synthetic meshes: the harness sends lengths, header lines and two polynomial fingerprints modulo 2^63 "
+                "of body bytes / tokens and of the returned mesh; Check/C04.v recomputes them from the parameters on Coq's "
+                "machine integers (Uint63, axiom-free primitives evaluated by vm_compute)"],
     "modelled": ["MeshWriter.Write, property writers, Header.Write, writeBinaryTriTopo/writeAsciiTriTopo are modelled "
                  "by hand (Formats/PlyWrite.v) and checked against the implementation's bytes/tokens on every run",
-                 "the reader is the C08 model Formats/PlyRead.v, checked against ply.ReadMesh on every written file"],
+                 "the reader is the C08 model Formats/PlyRead.v, checked against ply.ReadMesh on every written file",
+                 "TextureFile comment of a textured material: written by polyform, stripped by the harness before the "
+                 "header comparison (not modelled); binary writers for char/short/ushort/uint (declared panic) not exercised"],
 }
 
 
